@@ -216,6 +216,17 @@ def hh_history(chk, n):
     rng = random.Random(chk.seed + 303)
     tmp = tempfile.mkdtemp(prefix="skv")
     try:
+        # targeted: NUL-padded aliases that are all stored and all qualify must all be reported
+        for w, d, mkl, fam in ((64, 2, 4, [b"ab", b"ab\x00", b"ab\x00\x00"]), (64, 1, 3, [b"\x00", b"\x00\x00", b""]), (32, 2, 8, [b"k", b"k\x00"])):
+            sk = hhm.HeavyHitters(w, d, mkl)
+            other = hhm.HeavyHitters(w, d, mkl)
+            for i, k in enumerate(fam):
+                (sk if i % 2 == 0 else other).add(k, 10 + i)
+            sk.merge(other)
+            full = dict(sk.query(1000, 1))
+            for i, k in enumerate(fam):
+                if int(sk[k]) >= 1 and k not in full:
+                    return {"key": "HeavyHitters(%d,%d,%d) aliases %r" % (w, d, mkl, fam), "property": "C13", "observed": "added key %r with hh[key]=%d missing from query(1000, 1) = %r" % (k, int(sk[k]), full), "how": "bounded oracle on the real class"}
         for t in range(n):
             w, d, mkl = rng.choice([(1, 1, 4), (1, 2, 2), (2, 2, 4), (3, 2, 3)])
             keys = rng.sample(KEYS, 5)
